@@ -146,6 +146,26 @@ def run(chk):
                     'a refused (ILLEGAL) call is appended to no history and does not move the turn',
                     f'`{ast.unparse(ws[0].node) if ws else ""}` is executed on a path that returns ILLEGAL: the refused call leaks into the auction record',
                     path=p.describe())
+    # a snapshot / cache handed out by a read-only property must be refreshed on every path that changes what it is derived from
+    for pname, pfn in B.ci.methods.items():
+        if B.ci.method_kind(pname) != 'property':
+            continue
+        for n in ast.walk(pfn):
+            if isinstance(n, ast.Assign) and len(n.targets) == 1 and isinstance(n.targets[0], ast.Attribute) and isinstance(n.targets[0].value, ast.Name) \
+                    and n.targets[0].value.id == 'self':
+                view = f'self.{n.targets[0].attr}'
+                srcs = {f'self.{x.attr}' for x in ast.walk(n.value) if isinstance(x, ast.Attribute) and isinstance(x.value, ast.Name) and x.value.id == 'self'}
+                for p in B.accept:
+                    idx_mut = [i for i, e in enumerate(p.events) if (e.kind == 'call' and e.mutator and any(e.recv == s_ or e.recv.startswith(s_ + '[') for s_ in srcs))
+                               or (e.kind in ('assign', 'store', 'aug') and getattr(e, 'target', None) in srcs)]
+                    if not idx_mut:
+                        continue
+                    refreshed = any(e.kind == 'assign' and e.target == view for e in p.events[max(idx_mut) + 1:])
+                    chk.require(refreshed, 'C02.R1', B.repo.where(B.mod, n), f'BiddingPhase.{pname}', f'snapshot {view} of {sorted(srcs)} not refreshed on a {B.kinds[id(p)]} path',
+                                f'{pname}: the snapshot {view} is refreshed after the {B.kinds[id(p)]} path changes {sorted(srcs)}',
+                                f'property `{pname}` hands out `{view}`, computed once from {sorted(srcs)}; the path of take_bid that ends {B.kinds[id(p)]} changes '
+                                f'{sorted(srcs)} without resetting it - a caller that looked at `{pname}` before that call keeps seeing the old calls',
+                                path=p.describe())
     # dealer starts
     ip = B.init_paths[0]
     w_init, q_init = loc(chk.repo, 'BiddingPhase', '__init__', 'C02.R4')
